@@ -58,6 +58,8 @@ class ConstS(Spec):
         return self.v
 
     def check(self, ex, st, v, label, line=0):
+        if v is self.v:
+            return
         ex.prove(st, label, ex.equal(v, self.v, st, line), line)
 
 
@@ -284,7 +286,7 @@ class DictS(Spec):
 class FContract:
     def __init__(self, qual, params, requires=(), result=None, ensures=(),
                  post_objs=(), ghosts=None, label=None, effects=None,
-                 no_return=False, free=None, pure=False):
+                 no_return=False, free=None, pure=False, olds=None):
         self.qual = qual
         self.params = params            # ordered dict name -> Spec | None
         self.requires = list(requires)
@@ -298,6 +300,7 @@ class FContract:
         self.no_return = no_return
         self.free = free                # closure variables: name -> Spec
         self.pure = pure
+        self.olds = olds                # fn(A) -> dict of entry values
 
     def loop(self, ordinal):
         ls = self.loops.get(ordinal)
@@ -322,6 +325,8 @@ class FContract:
                 A[n] = sp.make(ex, st)
         for lab, fn in self.requires:
             st.assume(fn(A))
+        if self.olds:
+            A['old'] = self.olds(A)
         A.pop('$ex'), A.pop('$st')
         return A
 
@@ -359,6 +364,8 @@ class FContract:
             st.assume(False)
             yield st, None
             return
+        if self.olds:
+            A['old'] = self.olds(A)
         if self.effects:
             self.effects(ex, st, A)
         for lab, get, sp in self.post_objs:
